@@ -13,7 +13,9 @@
 // observations (vectorisation, transpose, sub-views, serialisation, iterators from a cell,
 // operand roles) of every (source, copy) pair; selfread.go: pure reads leave every object
 // state unchanged (snapshots through element reads only, zero-valued cells carrying
-// derivatives only).
+// derivatives only). iterhist.go: iterator clones after container mutations between advancing and
+// cloning (and the AVL tree iterator itself); funcops.go: operations with a function argument
+// (Jacobian, Hessian, MapSet, Reduce) over a lattice of operand derivative states.
 package main
 
 import (
@@ -38,6 +40,8 @@ type Case struct {
 	T     *TCase     `json:"twocall,omitempty"`
 	S     *SCase     `json:"selfread,omitempty"`
 	Dv    *DCase     `json:"derived,omitempty"`
+	IH    *IHCase    `json:"iterhist,omitempty"`
+	AV    *AVCase    `json:"avliter,omitempty"`
 	Key   string     `json:"key"`
 }
 
@@ -450,6 +454,12 @@ func run(c *vf.Ctx) {
 	})
 
 	// ---- read-only operands
+	funcOps := map[string]int64{}
+	defer func() {
+		for k, v := range funcOps {
+			c.Count("readonly:function-argument-op:"+k, v)
+		}
+	}()
 	enumRCases(thorough, func(cs RCase) {
 		if !want("readonly") {
 			return
@@ -469,6 +479,9 @@ func run(c *vf.Ctx) {
 		}
 		cc := cs
 		r.report(Case{Kind: "readonly", R: &cc}, rk, fails, out)
+		if strings.Contains(cs.Op, "/f=") || strings.HasSuffix(cs.Op, ".Reduce") {
+			funcOps[cs.Op+":"+out]++
+		}
 		if r.idx%20011 == 0 {
 			c.Sample(map[string]any{"check": "readonly", "op": cs.Op, "receiver": cs.Recv.String(), "operands": fmt.Sprint(cs.Args), "outcome": out})
 		}
@@ -493,6 +506,7 @@ func run(c *vf.Ctx) {
 						continue
 					}
 					cs := ICase{D: d, Kind: kind, Via: via, K: k}
+					c.Guard("iter|"+kind, descRank(d)+int64(k), cs)
 					fails, out := runICase(cs)
 					if out == "n/a" {
 						continue
@@ -506,6 +520,85 @@ func run(c *vf.Ctx) {
 		}
 	})
 
+	// ---- iterator clones after a history: container mutations between advancing and cloning
+	nIHStates, nIHCases := int64(0), int64(0)
+	ihBy := map[string]int64{}
+	defer func() {
+		for k, v := range ihBy {
+			c.Count("iterhist:cases:"+k, v)
+		}
+	}()
+	ihDescs(thorough, func(d Desc) {
+		if !want("iterhist") {
+			return
+		}
+		nIHStates++
+		enumIHUnits(d, thorough, func(u IHUnit) {
+			r.idx++
+			if !c.Mine(r.idx) {
+				return
+			}
+			c.Guard("iterhist|"+u.Kind, descRank(d)+int64(u.K), IHCase{D: u.D, Other: u.Other, Kind: u.Kind, K: u.K})
+			if !ihReachable(u.D, u.Other, u.Kind, u.K) {
+				return
+			}
+			for _, ms := range u.Muts {
+				cs := IHCase{D: u.D, Other: u.Other, Kind: u.Kind, K: u.K, Muts: ms}
+				ref, perr := ihReference(cs)
+				if perr != "" || ref == nil {
+					ref = nil // let the case runner meet (and classify) the panic itself
+				}
+				for _, via := range u.Vias {
+					for _, when := range u.Whens {
+						cc := cs
+						cc.Via, cc.When = via, when
+						fails, out := runIHCaseRef(cc, ref)
+						if out == "n/a" {
+							continue
+						}
+						nIHCases++
+						ihBy[d.Kind+":"+d.Sto+":"+viewClass(d)]++
+						r.report(Case{Kind: "iterhist", IH: &cc}, descRank(d)+int64(10*len(ms)+u.K), fails, out)
+						if out == "ok" {
+							nontrivial++
+						}
+						if nIHCases%20011 == 0 {
+							c.Sample(map[string]any{"check": "iterhist", "object": d.String(), "iterator": u.Kind, "clone": via, "position": u.K, "mutations": fmt.Sprint(ms), "when": when, "outcome": out})
+						}
+					}
+				}
+			}
+		})
+	})
+	if c.Shard == 0 {
+		c.Count("iterhist:containers", nIHStates)
+	}
+	// ---- the AVL tree iterator itself (it underlies every sparse iterator)
+	if want("iterhist") {
+		var trees int64
+		enumAVCases(thorough, func(cs AVCase) {
+			r.idx++
+			if !c.Mine(r.idx) {
+				return
+			}
+			if r.idx%1024 == 0 {
+				c.Guard("iterhist|avl", int64(100*len(cs.Keys)), cs)
+			}
+			fails, out := runAVCase(cs)
+			if out == "n/a" {
+				return
+			}
+			cc := cs
+			r.report(Case{Kind: "avliter", AV: &cc}, int64(100*len(cs.Keys)+10*len(cs.Muts)+cs.K), fails, out)
+			if out == "ok" {
+				nontrivial++
+			}
+		}, &trees)
+		if c.Shard == 0 {
+			c.Count("iterhist:avl-trees", trees)
+		}
+	}
+
 	// ---- representative algorithm entry points
 	enumACases(thorough, func(cs ACase) {
 		if !want("algo") {
@@ -518,7 +611,7 @@ func run(c *vf.Ctx) {
 		c.Guard("algo|"+cs.Algo, int64(cs.In), cs)
 		fails, out := runAlgo(cs)
 		cc := cs
-		r.report(Case{Kind: "algo", A: &cc}, int64(cs.In*10+cs.Opt), fails, out)
+		r.report(Case{Kind: "algo", A: &cc}, int64(cs.Dst*100+cs.In*10+cs.Opt), fails, out)
 		if out == "unchanged" {
 			nontrivial++
 		}
@@ -599,7 +692,10 @@ func main() {
 			"derived observations of every (object state, copy constructor) pair: AsVector/AsConstVector multiset, T, T.T, T.AsVector, every Slice/ConstSlice window (contents, transpose, vectorisation), rows/columns/diagonal, JSON and Export/Import round trips, String/Table, iterators started at every cell, joint iterators, clone of the copy, and the results of 10 operations with the object as operand, copy against source; " +
 			"pure reads (selfread): ~35 read operations (iterators from every cell, printing, JSON, Equals, const views, reductions, conversions, operand roles) on every object state must leave object and parent unchanged; " +
 			"algorithm inputs: every package under algorithm/ with a container input (22 entry points incl. msqrt, msqrtInv, gramSchmidt, hessenbergReduction, householder*, givensRotation, backSubstitution, blahut, saga x 5 variants, adam x 2); two-call histories additionally with 7 inadmissible first inputs (singular, indefinite, non-finite) for the direct methods; " +
-			"a case is non-trivial if the mutation changed its target (indep), the call returned (readonly/selfread/algo/twocall), at least one derived observation was comparable and all agreed (derived), the iterator had elements left (iter), or O2 was fired inside O1 and changed the other side (interleave)",
+			"iterator clones after a history (iterhist): containers = sparse vectors n<=4 (Float64/Real64: n<=5; thorough: n<=5, Float64/Real64/Int16 n<=6) and dense vectors n<=3 (thorough 4) with EVERY zero pattern, sparse ones filled in ascending, descending and (>=5 entries) middle-out order (right-heavy / left-heavy / balanced index trees), slices; matrices 2x2 (sparse also 1x3; sparse Float64/Real64 also 2x3 with 4 or 6 entries; thorough: all of 1x2..2x3, every pattern), owning, and T and Slice views (quick: <=4 cells, three zero patterns; thorough: every shape, every pattern up to 4 cells, three patterns of 2x3); all 9 element types; x iterator kind {Iterator, ConstIterator, IteratorFrom, JointIterator, ConstJointIterator (second operand dense and sparse), MagicIterator} x every position K the iterator can be advanced to x every single mutation {write a value to position p (absent: new entry), write zero to p, write zero to p and purge by a full const-iterator walk, Swap(p,q), SwapRows, SwapColumns; all p,q} of the container / the object owning its storage / the second operand (thorough: every ordered pair on owning containers with <=4 cells, Float64/Real64) x every clone method of the kind, the mutation placed between advancing and cloning (thorough: also between cloning and walking); reference = the never-cloned source iterator after the same history in an identically built instance; " +
+			"the AVL tree iterator itself: every distinct tree (shape, balance, keys) over <=5 keys of {0..5} (thorough <=6 of {0..6}) x Iterator / IteratorFrom(every key) / SafeIterator x every position x every single Insert(absent)/Delete(present) and every ordered pair of them (trees <=4 keys; thorough: all) x mutation before / after Clone(); " +
+			"operations with a FUNCTION argument in the read-only-operand part: Jacobian(f,x) and Hessian(f,x) with receivers of all 9 element types, both storage classes, owning and transposed, n=1..3, x f in {builds a new result, returns (an element of) its argument, returns an object the caller holds (also snapshotted)} x operands x of {Real64, Real32} x {dense, sparse} whose derivative state is: order 0 (full / alternating pattern), order 1 and order 2 content with non-trivial entries over 1, 2 and 3 variables, Variables(1) / Variables(2) already called by the caller, zero cells carrying derivatives only, slices of a longer vector with derivative-carrying neighbours; MapSet whose callback returns a scalar the caller holds; Reduce over every operand configuration; optimizers with an objective callback (rprop, bfgs, newton x 3, gradientDescent, adam) with Real64 start vectors of order 0, order 1 over 3 variables, order 2 over 1 variable and order 2 over dim variables; snapshots compare value, order, N, every derivative and every Hessian entry; " +
+			"a case is non-trivial if the mutation changed its target (indep), the call returned (readonly/selfread/algo/twocall), at least one derived observation was comparable and all agreed (derived), the iterator had elements left (iter), the mutation changed the container and the source iterator still had elements left afterwards (iterhist), or O2 was fired inside O1 and changed the other side (interleave)",
 		Assume: []string{
 			"observable state = public read API (dims, every element value/order/N/derivatives/Hessian, const-iterator sequence); explicit zero entries of sparse containers are not observable; an element with value 0 and no non-zero derivative is the same observable value whatever order/N it is allocated with (sparse containers may drop it)",
 			"AsVector/AsConstVector promise all elements in unspecified order: compared as multisets; derived observations a source itself cannot deliver (panic) and operations a const container type does not implement are not compared",
@@ -610,6 +706,8 @@ func main() {
 			"AppendScalar/AppendVector on a dense slice writing into the parent's spare capacity is Go slice semantics on an alias the caller created: classified as an outcome, not a violation",
 			"algorithm inputs: representative set only (C04-C07/C15/C16 check their own inputs)",
 			"interleaving: one logical thread of control; the interleaving points are the calls the receiver's operation makes into its operands and callbacks (an operation that type-switches to a concrete fast path makes none and is counted as not-interposable); state shared by a view and its parent (T()/Slice share the scratch vectors by construction) is not in scope",
+			"iterator clones after a history: what an iterator yields after its container was mutated under it is NOT specified here (C11/C19); only 'the clone does what its source does' is demanded. Histories after which the source itself panics or does not terminate (joint iterators whose current entry was deleted or swapped away under them) are an outcome class (source-fails-after-history), the clone is then required to fail the same way",
+			"a callback's result is an operand of the call that invoked the callback: an object the caller holds and returns from f (Jacobian, Hessian, MapSet) must be unchanged; the accumulator of Reduce is the call's result, not a read-only operand; optimizers that panic or fail on a start vector carrying foreign derivatives (bfgs) are an outcome class, their input must be unchanged all the same",
 			"InSitu: no doc comment defines result ownership; the result objects are the exported buffer fields, so first-call results that change during the second call are an outcome class (results-alias-buffers), not a violation; with InitializeH=false the caller (harness) fills H itself before each call; a call that fails loudly (error/panic) only with or only without the InSitu object is an outcome class",
 		},
 		Run: run,
@@ -637,6 +735,10 @@ func main() {
 				fails, _ = runSCase(*cs.S)
 			case "derived":
 				fails, _ = runDCase(*cs.Dv, nil)
+			case "iterhist":
+				fails, _ = runIHCase(*cs.IH)
+			case "avliter":
+				fails, _ = runAVCase(*cs.AV)
 			}
 			for _, f := range fails {
 				if f.key == cs.Key {
